@@ -9,6 +9,7 @@ import (
 	"fmt"
 	"io"
 	"log/slog"
+	"math"
 	"net/http"
 	"strings"
 
@@ -150,7 +151,7 @@ func (h *HttpServer) readHTTPBody(r *http.Request) ([]byte, error) {
 	var body []byte
 	var err error
 	if limit > 0 {
-		body, err = io.ReadAll(io.LimitReader(r.Body, limit+1))
+		body, err = io.ReadAll(io.LimitReader(r.Body, capPlusOne(limit)))
 	} else {
 		body, err = io.ReadAll(r.Body)
 	}
@@ -173,7 +174,7 @@ func (h *HttpServer) readHTTPBody(r *http.Request) ([]byte, error) {
 		if requestCapApplied && (decompressedCap <= 0 || limit < decompressedCap) {
 			decompressedCap = limit
 		} else if decompressedCap <= 0 && limit > 0 {
-			decompressedCap = limit * 16
+			decompressedCap = saturatingMul16(limit)
 		}
 		decoded, err := decompressBounded(encoding, body, decompressedCap)
 		// Only an overrun of the advertised cap is a 413 naming
@@ -243,4 +244,24 @@ func (h *HttpServer) logIPCWriteErr(op, method string, err error) {
 		return
 	}
 	slog.Error("ipc write failed", "op", op, "method", method, "err", err)
+}
+
+// capPlusOne is limit+1 — the one byte past a cap that proves an overrun —
+// saturating at MaxInt64: a cap of MaxInt64 used to wrap to a negative limit,
+// which io.LimitReader treats as "read nothing", so a body within the cap was
+// delivered empty without an error.
+func capPlusOne(limit int64) int64 {
+	if limit == math.MaxInt64 {
+		return limit
+	}
+	return limit + 1
+}
+
+// saturatingMul16 derives the default decoded-size cap (16x the raw cap)
+// without wrapping for caps above MaxInt64/16.
+func saturatingMul16(limit int64) int64 {
+	if limit > math.MaxInt64/16 {
+		return math.MaxInt64
+	}
+	return limit * 16
 }
